@@ -36,7 +36,7 @@ out.append("### 12.3 Seeded changes and which check catches them (generated from
 out.append("| id | property | what the change is | needs to manifest | caught by |\n|---|---|---|---|---|")
 for g in sorted(glob.glob(os.path.join(V, "seeded", "*", "meta.json"))):
     m = json.load(open(g))
-    out.append("| %s | %s | %s | %s | %s |" % (m["id"], m["property"], esc(m["what"])[:230], esc(m["needs_to_manifest"])[:160], esc(m.get("caught_by", ""))[:260] + (" — SUPERSEDED: " + esc(m["superseded"])[:300] if m.get("superseded") else "")))
+    out.append("| %s | %s | %s | %s | %s |" % (m["id"], m["property"], esc(m["what"])[:230], esc(m.get("needs_to_manifest", m.get("expected", "")))[:160], esc(m.get("caught_by", ""))[:260] + (" — SUPERSEDED: " + esc(m["superseded"])[:300] if m.get("superseded") else "")))
 out.append("")
 rf = sorted(glob.glob(os.path.join(V, "refactors", "*", "meta.json")))
 if rf:
